@@ -25,6 +25,8 @@ RELATED = {
     'C14_f': ['C14', 'C15'], 'C15_f': ['C15'], 'C16_f': ['C16', 'C19'], 'C20_f': ['C20'],
     'C01_g': ['C01', 'C03'], 'C05_g': ['C05'], 'C06_g': ['C06'], 'C07_g': ['C07'], 'C09_g': ['C09'], 'C10_g': ['C10', 'C14'], 'C13_g': ['C13'], 'C17_g': ['C17'],
     'C18_g': ['C18'], 'C19_g': ['C19'],
+    'C02_h': ['C02'], 'C03_h': ['C03'], 'C04_h': ['C04'], 'C08_h': ['C08'], 'C11_h': ['C11'], 'C12_h': ['C12'], 'C14_h': ['C14', 'C02'], 'C15_h': ['C15'],
+    'C16_h': ['C16'], 'C20_h': ['C20', 'C13'],
     'C01_c': ['C01', 'C12'], 'C16_c': ['C16'], 'C17_c': ['C17'], 'C18_c': ['C18', 'C13'], 'C19_c': ['C19', 'C03'], 'C20_c': ['C20'],
 }
 
